@@ -47,6 +47,9 @@ type Alt struct {
 	Partners func() []int
 	// HB is the happens-before cell of the object this alternative operates on (nil: thread-local step).
 	HB *HB
+	// Reads lists further cells whose state the alternative observes without changing it (a select's default case
+	// observes that none of the other channels is ready).
+	Reads []*HB
 }
 
 type Op struct {
@@ -430,6 +433,12 @@ func RunOnce(main func(s *Scheduler), prefix []int, horizon int, trace, hashing 
 				}
 			} else {
 				th.hb = th.hb.absorb(HB{}, code)
+			}
+			for _, cell := range th.pending.Alts[tr.alt].Reads {
+				// conservative: an observation is ordered with every other operation on the object
+				old := *cell
+				*cell = old.absorb(th.hb, code^0x0b5e)
+				th.hb = th.hb.absorb(old, code^0x0b5e)
 			}
 		}
 		if th.resolved {
